@@ -128,6 +128,9 @@ func runJob(bins *binaries, base string, job childJob, timeout time.Duration) ch
 		"GOMAXPROCS="+strconv.Itoa(job.Run.GOMAXPROCS),
 		"GOGC="+job.Run.GOGC,
 		"GORACE=halt_on_error=0 exitcode=0 log_path="+filepath.Join(dir, "race"))
+	if job.Run.GOGC == "off" {
+		env = append(env, "GOMEMLIMIT=6GiB") // GC off, with a safety net against exhausting the shared machine
+	}
 	cmd.Env = env
 	cmd.SysProcAttr = &syscall.SysProcAttr{Setpgid: true}
 	start := time.Now()
